@@ -65,6 +65,32 @@ theorem approx_rule_tracks_hl (cfg : I8.Cfg) (msgs : List (Nat × Int))
   obtain ⟨out, outR, h1, h2, h3, h4⟩ := TrackL.approx_rule cfg msgs hn hr hd
   exact ⟨out, outR, h1, h2, h3, fun i hi hlt => h4 i hi (Or.inr hlt)⟩
 
+/-- A-Min* with partial hard limiting: the same bound for every emitted value of magnitude below 100, and a value that
+was promoted (magnitude ≥ 100, emitted as ±127) has a real counterpart of magnitude at least 100 − (d−1): promotion
+never happens to a value whose real counterpart is clearly below 100 -/
+theorem amin_rule_tracks_hl (cfg : I8.Cfg) (msgs : List (Nat × Int))
+    (hn : (msgs.map Prod.fst).Nodup) (hr : ∀ m ∈ msgs, -127 ≤ m.2 ∧ m.2 ≤ 127) (hd : 2 ≤ msgs.length) :
+    ∃ out outR, I8.checkAmin cfg msgs = some out ∧ ArithF.checkAmin Sc.real (scale msgs) = some outR ∧
+      out.map Prod.fst = outR.map Prod.fst ∧
+      ∀ i, i < out.length →
+        ((out.getD i (0, 0)).2.natAbs < 100 →
+          |((out.getD i (0, 0)).2 : ℝ) - 8 * (outR.getD i (0, 0)).2| ≤ ((msgs.length - 1 : Nat) : ℝ)) ∧
+        (100 ≤ (out.getD i (0, 0)).2.natAbs →
+          (100 : ℝ) - ((msgs.length - 1 : Nat) : ℝ) ≤ |8 * (outR.getD i (0, 0)).2|) := by
+  have _ := hn
+  exact TrackL.amin_rule_hl cfg msgs hr hd
+
+/-- the promotion clause for the approximate rule: a promoted value (magnitude ≥ 100) has a real counterpart of
+magnitude at least 100 − (d−2)/2 -/
+theorem approx_rule_promotion (cfg : I8.Cfg) (msgs : List (Nat × Int))
+    (hn : (msgs.map Prod.fst).Nodup) (hr : ∀ m ∈ msgs, -127 ≤ m.2 ∧ m.2 ≤ 127) (hd : 2 ≤ msgs.length) :
+    ∃ out outR, I8.checkApprox cfg msgs = some out ∧ ArithF.checkApprox Sc.real (scale msgs) = some outR ∧
+      out.map Prod.fst = outR.map Prod.fst ∧
+      ∀ i, i < out.length → 100 ≤ (out.getD i (0, 0)).2.natAbs →
+        (100 : ℝ) - ((msgs.length - 2 : Nat) : ℝ) / 2 ≤ |8 * (outR.getD i (0, 0)).2| := by
+  obtain ⟨out, outR, h1, h2, h3, h4⟩ := TrackL.approx_rule_hl cfg msgs hn hr hd
+  exact ⟨out, outR, h1, h2, h3, fun i hi => (h4 i hi).2⟩
+
 /-- non-vacuity: a concrete degree-4 check -/
 example : I8.checkApprox ⟨false, false, false⟩ [(0, 20), (1, -13), (2, 40), (3, 9)] =
     some [(0, -5), (1, 7), (2, -4), (3, -10)] := by
